@@ -47,7 +47,11 @@ META = {
         "guarded by `'.' in entry` resp. from (entry, None) (R4). The value returned by create_warning is only discarded, "
         "returned by a wrapper whose call sites are judged, or put into a node list under a presence test; nothing else is "
         "control- or data-dependent on it (R5). The log record's type/subtype and the message node's '[type.subtype]' suffix are "
-        "built from the same two strings, and the renderer wrapper forwards each argument to the parameter of the same name (R6)."
+        "built from the same two strings, and the renderer wrapper forwards each argument to the parameter of the same name (R6). "
+        "Refactorings are followed rather than refused: conditional expressions count as branches, hoisted literals are looked "
+        "up, a private helper (the entry split, the match predicate, the tag strings, the node builder, the suppression test - "
+        "the latter only if it is called from create_warning alone) is analysed with its parameters substituted (two levels), "
+        "`return any(... for entry in list)` counts as the scan, and the accepted forms are judged on the union of all positive answers."
     ),
     "not_decided": "per-document equality of the outputs under different suppress lists (needs the documents); Sphinx's own logger-side suppression filter",
     "trusted_base": ["CPython ast", "the wrapper/callback edges listed in the evidence", "mystsa.flow dominators (branch facts)"],
@@ -80,6 +84,40 @@ def enum_members(corpus: Corpus) -> dict[str, str]:
     if len(out) < 10:
         raise Exception("MystWarnings enum not understood")
     return out
+
+
+def _lit(e: ast.expr | None, fi: FunctionInfo, _depth: int = 0) -> ast.expr | None:
+    """Follow a name to the literal it is bound to: a module-level constant, or a function-local name that is
+    assigned once to a literal (hoisted constants).  Anything else is returned unchanged."""
+    if not isinstance(e, ast.Name) or _depth > 4:
+        return e
+    f: FunctionInfo | None = fi
+    while f is not None:
+        if e.id in f.params:
+            return e
+        stores = [n for n in (f.local_nodes() if not f.is_lambda else []) if isinstance(n, ast.Name) and n.id == e.id and isinstance(n.ctx, ast.Store)]
+        if stores:
+            if len(stores) != 1:
+                return e
+            p = parent(stores[0])
+            if isinstance(p, ast.Assign) and len(p.targets) == 1 and p.targets[0] is stores[0] and _is_literal(p.value):
+                return p.value
+            return e
+        f = f.parent_func
+    d = fi.module.const_nodes.get(e.id)
+    if d is not None and (_is_literal(d) or isinstance(d, ast.Name)):
+        return _lit(d, fi, _depth + 1) if isinstance(d, ast.Name) else d
+    return e
+
+
+def _is_literal(e: ast.expr) -> bool:
+    if isinstance(e, ast.Constant):
+        return True
+    if isinstance(e, (ast.Tuple, ast.List, ast.Set)):
+        return all(isinstance(x, (ast.Constant, ast.Name)) for x in e.elts)
+    if isinstance(e, ast.Call) and dotted(e.func) == "frozenset" and len(e.args) == 1:
+        return _is_literal(e.args[0])
+    return False
 
 
 class Emissions:
@@ -176,6 +214,9 @@ class Emissions:
             defs = [n for n in walk_local(fi.node) if isinstance(n, ast.Assign) and any(isinstance(t, ast.Name) and t.id == e.id for t in n.targets)]
             if len(defs) == 1:
                 return self.resolve(defs[0].value, fi, depth + 1)
+            # module-level constant (a hoisted tag string or an alias of a member)
+            if not defs and e.id in fi.module.const_nodes:
+                return self.resolve(fi.module.const_nodes[e.id], fi, depth + 1)
             return [("bad", f"cannot trace name {e.id}")]
         if isinstance(e, ast.Attribute) and e.attr == "type":
             # ParseWarnings.type: default + every constructor call
@@ -251,7 +292,7 @@ def r1_typed_emission(corpus: Corpus, rep: Report, tier: str):
         rep.saw_function(fi.fq)
         k = f"{kind}|{stmt_key(fi, call, 90)}"
         sub = em.subtype_arg(call, kind)
-        wt = em.wtype_arg(call, kind)
+        wt = _lit(em.wtype_arg(call, kind), fi)
         res = em.resolve(sub, fi)
         wt_lit = wt.value if isinstance(wt, ast.Constant) else None
         problems = []
@@ -355,18 +396,50 @@ def _strip_not(e: ast.expr) -> tuple[ast.expr, bool]:
     return e, flip
 
 
+def _bind_call(call: ast.Call, h: FunctionInfo) -> dict[str, ast.expr] | None:
+    """helper parameter -> argument expression of a plain call (no */**)."""
+    params = [p for p in h.params if p not in ("self", "cls")] if h.cls is not None else list(h.params)
+    if any(isinstance(a, ast.Starred) for a in call.args) or any(k.arg is None for k in call.keywords) or len(call.args) > len(params):
+        return None
+    bound: dict[str, ast.expr] = dict(zip(params, call.args))
+    for k in call.keywords:
+        if k.arg not in params:
+            return None
+        bound[k.arg] = k.value  # type: ignore[index]
+    return bound
+
+
+def _return_expr(h: FunctionInfo) -> ast.expr | None:
+    """The value a small helper returns, as one expression: a single return, or two returns selected by one test
+    (rebuilt as a conditional expression).  None if the helper is not that simple."""
+    rets = [n for n in h.local_nodes() if isinstance(n, ast.Return) and n.value is not None]
+    if len(rets) == 1 and len([n for n in h.local_nodes() if isinstance(n, ast.Return)]) == 1:
+        return rets[0].value
+    if len(rets) == 2 and not h.is_lambda:
+        cfg = get_cfg(h)
+        g0, g1 = cfg.guards(rets[0]), cfg.guards(rets[1])
+        if len(g0) == 1 and len(g1) == 1 and g0[0][0] is g1[0][0] and g0[0][1] != g1[0][1]:
+            t_ret, f_ret = (rets[0], rets[1]) if g0[0][1] else (rets[1], rets[0])
+            return ast.IfExp(test=g0[0][0], body=t_ret.value, orelse=f_ret.value)
+    return None
+
+
 class _TagRoles:
     """create_warning: single-assignment locals and the classifiers of the two tag strings.
 
     Roles are taken from the public parameter names of create_warning (``subtype``, ``wtype``, ``message`` are
-    keyword names used by the call sites, i.e. API, not local spelling); locals are followed by definition."""
+    keyword names used by the call sites, i.e. API, not local spelling); locals are followed by definition, a
+    private helper that computes a string is followed with its parameters substituted."""
 
     OK, BAD, UNKNOWN = "ok", "bad", "unknown"
 
-    def __init__(self, cw: FunctionInfo):
+    def __init__(self, cw: FunctionInfo, resolver=None, n_sub: str = "subtype", n_type: str = "wtype", type_default: ast.expr | None = None, depth: int = 0):
         self.cw = cw
+        self.resolver, self.n_sub, self.n_type, self.depth = resolver, n_sub, n_type, depth
+        self.type_default = type_default if depth else _param_default(cw, n_type)
         self.counts: dict[str, int] = {}
         self.defs: dict[str, ast.expr] = {}
+        self.tuple_defs: dict[str, tuple[ast.Call, int]] = {}
         for n in cw.local_nodes():
             if isinstance(n, ast.Name) and isinstance(n.ctx, ast.Store):
                 self.counts[n.id] = self.counts.get(n.id, 0) + 1
@@ -374,6 +447,14 @@ class _TagRoles:
                 self.defs[n.targets[0].id] = n.value
             elif isinstance(n, ast.AnnAssign) and isinstance(n.target, ast.Name) and n.value is not None:
                 self.defs[n.target.id] = n.value
+            elif isinstance(n, ast.Assign) and len(n.targets) == 1 and isinstance(n.targets[0], (ast.Tuple, ast.List)) and all(isinstance(x, ast.Name) for x in n.targets[0].elts):
+                names = [x.id for x in n.targets[0].elts]  # type: ignore[union-attr]
+                if isinstance(n.value, (ast.Tuple, ast.List)) and len(n.value.elts) == len(names):
+                    for nm, v in zip(names, n.value.elts):
+                        self.defs[nm] = v
+                elif isinstance(n.value, ast.Call):
+                    for i, nm in enumerate(names):
+                        self.tuple_defs[nm] = (n.value, i)
 
     def deref(self, e: ast.expr | None) -> ast.expr | None:
         for _ in range(10):
@@ -387,23 +468,60 @@ class _TagRoles:
         a, b = self.deref(a), self.deref(b)
         return a is not None and b is not None and unparse(a) == unparse(b)
 
-    def param_default(self, name: str) -> ast.expr | None:
-        return _param_default(self.cw, name)
+    def _via_helper(self, e: ast.expr, which: str) -> tuple[str, str] | None:
+        """``e`` is computed by a private helper: classify the helper's return value instead."""
+        index = None
+        if isinstance(e, ast.Name) and self.counts.get(e.id) == 1 and e.id in self.tuple_defs:
+            e, index = self.tuple_defs[e.id]
+        if not isinstance(e, ast.Call) or self.resolver is None or self.depth >= 2:
+            return None
+        try:
+            targets = self.resolver(e, self.cw)
+        except Exception:
+            return None
+        if len(targets) != 1 or targets[0].is_lambda or targets[0].fq == self.cw.fq:
+            return None
+        h = targets[0]
+        bound = _bind_call(e, h)
+        if bound is None:
+            return None
+        role = {}
+        for p, a in bound.items():
+            a = self.deref(a)
+            if _is_name(a, self.n_sub):
+                role["sub"] = p
+            elif _is_name(a, self.n_type):
+                role["type"] = p
+        if which not in role:
+            return None
+        sub = _TagRoles(h, self.resolver, role.get("sub", "\0sub"), role.get("type", "\0type"), self.type_default, self.depth + 1)
+        val = _return_expr(h)
+        if val is not None and index is not None:
+            val = sub.deref(val)
+            val = val.elts[index] if isinstance(val, (ast.Tuple, ast.List)) and index < len(val.elts) else None
+        if val is None:
+            return self.UNKNOWN, f"helper {h.name} is not a single returned expression"
+        st = sub.classify_sub(val) if which == "sub" else sub.classify_type(val)
+        return st if st[0] != self.UNKNOWN else (self.UNKNOWN, f"in helper {h.name}: {st[1]}")
 
     def classify_sub(self, e: ast.expr | None) -> tuple[str, str]:
         """Is ``e`` the catalogue string of the ``subtype`` argument (str kept, enum member -> .value)?"""
+        S = self.n_sub
         e = self.deref(e)
         if e is None:
             return self.UNKNOWN, "no subtype expression"
-        if _is_name(e, "subtype"):
+        via = self._via_helper(e, "sub")
+        if via is not None:
+            return via
+        if _is_name(e, S):
             return self.BAD, "the raw `subtype` argument is used (an enum object for catalogue members), not its catalogue string"
-        if isinstance(e, ast.Call) and dotted(e.func) == "getattr" and len(e.args) == 3 and _is_name(e.args[0], "subtype") and _is_name(e.args[2], "subtype") and isinstance(e.args[1], ast.Constant):
+        if isinstance(e, ast.Call) and dotted(e.func) == "getattr" and len(e.args) == 3 and _is_name(e.args[0], S) and _is_name(e.args[2], S) and isinstance(e.args[1], ast.Constant):
             if e.args[1].value == "value":
                 return self.OK, ""
             return self.BAD, f"enum members are rendered with .{e.args[1].value}, not .value: tags are no longer the catalogue values"
         if isinstance(e, ast.IfExp):
             test, flip = _strip_not(e.test)
-            if isinstance(test, ast.Call) and dotted(test.func) == "isinstance" and len(test.args) == 2 and _is_name(test.args[0], "subtype"):
+            if isinstance(test, ast.Call) and dotted(test.func) == "isinstance" and len(test.args) == 2 and _is_name(test.args[0], S):
                 cls = (dotted(test.args[1]) or "").split(".")[-1]
                 if cls == "str":
                     str_when_true = True
@@ -414,35 +532,39 @@ class _TagRoles:
                 if flip:
                     str_when_true = not str_when_true
                 s_br, e_br = (e.body, e.orelse) if str_when_true else (e.orelse, e.body)
-                if isinstance(s_br, ast.Attribute) and _is_name(s_br.value, "subtype") and _is_name(e_br, "subtype"):
+                if isinstance(s_br, ast.Attribute) and _is_name(s_br.value, S) and _is_name(e_br, S):
                     return self.BAD, f"the branches are exchanged: a str subtype is rendered through .{s_br.attr} and an enum member is passed on as an object"
-                if not _is_name(s_br, "subtype"):
+                if not _is_name(s_br, S):
                     return self.UNKNOWN, f"string branch is {short(s_br, 40)}"
-                if isinstance(e_br, ast.Attribute) and _is_name(e_br.value, "subtype"):
+                if isinstance(e_br, ast.Attribute) and _is_name(e_br.value, S):
                     if e_br.attr == "value":
                         return self.OK, ""
                     return self.BAD, f"enum members are rendered with .{e_br.attr}, not .value: tags are no longer the catalogue values"
-                if _is_name(e_br, "subtype"):
+                if _is_name(e_br, S):
                     return self.BAD, "enum members are passed on as objects, not as their .value"
                 return self.UNKNOWN, f"enum branch is {short(e_br, 40)}"
         return self.UNKNOWN, f"subtype string computed as {short(e, 50)}"
 
     def classify_type(self, e: ast.expr | None) -> tuple[str, str]:
         """Is ``e`` the ``wtype`` argument with the default 'myst'?"""
+        T = self.n_type
         e = self.deref(e)
         default: ast.expr | None = None
         if e is None:
             return self.UNKNOWN, "no type expression"
-        if _is_name(e, "wtype"):
-            default = self.param_default("wtype")
+        via = self._via_helper(e, "type")
+        if via is not None:
+            return via
+        if _is_name(e, T):
+            default = self.type_default
             if default is None or is_const(default, None):
                 return self.BAD, "the raw `wtype` argument is used: it is None, not 'myst', when the caller gives no type"
         elif isinstance(e, ast.IfExp):
             test, flip = _strip_not(e.test)
             wt_when_true = None
-            if _is_name(test, "wtype"):
+            if _is_name(test, T):
                 wt_when_true = True
-            elif isinstance(test, ast.Compare) and len(test.ops) == 1 and _is_name(test.left, "wtype") and is_const(test.comparators[0], None):
+            elif isinstance(test, ast.Compare) and len(test.ops) == 1 and _is_name(test.left, T) and is_const(test.comparators[0], None):
                 if isinstance(test.ops[0], (ast.IsNot, ast.NotEq)):
                     wt_when_true = True
                 elif isinstance(test.ops[0], (ast.Is, ast.Eq)):
@@ -452,14 +574,15 @@ class _TagRoles:
             if flip:
                 wt_when_true = not wt_when_true
             w_br, default = (e.body, e.orelse) if wt_when_true else (e.orelse, e.body)
-            if not _is_name(w_br, "wtype"):
-                if _is_name(default, "wtype"):
+            if not _is_name(w_br, T):
+                if _is_name(default, T):
                     return self.BAD, "the branches are exchanged: the default replaces a given wtype and None is kept"
                 return self.UNKNOWN, f"given-type branch is {short(w_br, 40)}"
-        elif isinstance(e, ast.BoolOp) and isinstance(e.op, ast.Or) and len(e.values) == 2 and _is_name(e.values[0], "wtype"):
+        elif isinstance(e, ast.BoolOp) and isinstance(e.op, ast.Or) and len(e.values) == 2 and _is_name(e.values[0], T):
             default = e.values[1]
         else:
             return self.UNKNOWN, f"type string computed as {short(e, 50)}"
+        default = _lit(default, self.cw)
         if isinstance(default, ast.Constant) and isinstance(default.value, str):
             if default.value == "myst":
                 return self.OK, ""
@@ -467,21 +590,103 @@ class _TagRoles:
         return self.UNKNOWN, f"default type is {short(default, 40)}"
 
 
-_NODE_EFFECTS = (".append", ".extend", ".insert", ".warning", ".error", ".info", "_create_warning_node")
+_NODE_EFFECTS = (".append", ".extend", ".insert", ".warning", ".error", ".info", "_create_warning_node", "system_message")
+
+
+def _resolver_of(corpus: Corpus):
+    g = get_callgraph(corpus)
+
+    def resolve(call: ast.Call, fi: FunctionInfo) -> list[FunctionInfo]:
+        return [x for x in g.flat_targets(g.resolve_call(call, fi)) if isinstance(x, FunctionInfo)]
+
+    return resolve
+
+
+def _is_direct_builder(c: ast.Call) -> bool:
+    d = dotted(c.func) or ""
+    return d == "_create_warning_node" or d.endswith("reporter.warning") or d.split(".")[-1] == "system_message"
+
+
+def _text_arg(c: ast.Call, resolver, fi: FunctionInfo) -> ast.expr | None:
+    if c.args and not isinstance(c.args[0], ast.Starred):
+        return c.args[0]
+    try:
+        ts = resolver(c, fi)
+    except Exception:
+        ts = []
+    if len(ts) == 1:
+        b = _bind_call(c, ts[0])
+        if b:
+            return b.get(ts[0].params[0] if ts[0].cls is None else ([p for p in ts[0].params if p != "self"] or [""])[0])
+    return kwarg(c, "message")
+
+
+def _node_builders(cw: FunctionInfo, resolver) -> list[tuple[ast.Call, ast.expr | None, str]]:
+    """Calls in create_warning that build the message node: (call, expression of the message text, label).
+    A private helper that builds the node from one of its parameters is followed (two levels)."""
+
+    def inner(fi: FunctionInfo, depth: int) -> list[tuple[ast.Call, ast.expr | None, str]]:
+        out = []
+        for c in fi.local_nodes():
+            if not isinstance(c, ast.Call):
+                continue
+            if _is_direct_builder(c):
+                out.append((c, _text_arg(c, resolver, fi), dotted(c.func) or "?"))
+                continue
+            if depth >= 2 or resolver is None:
+                continue
+            try:
+                ts = resolver(c, fi)
+            except Exception:
+                continue
+            if len(ts) != 1 or ts[0].is_lambda or ts[0].module is not cw.module or ts[0].fq == fi.fq:
+                continue
+            sub = inner(ts[0], depth + 1)
+            if not sub:
+                continue
+            bound = _bind_call(c, ts[0]) or {}
+            texts = {unparse(t) if t is not None else None for _, t, _ in sub}
+            text = None
+            if len(texts) == 1 and None not in texts:
+                t = sub[0][1]
+                text = bound.get(t.id) if isinstance(t, ast.Name) else None
+            out.append((c, text, ts[0].name))
+        return out
+
+    return inner(cw, 0)
+
+
+def _confined_helpers(corpus: Corpus, cw: FunctionInfo) -> dict[str, FunctionInfo]:
+    """Functions of create_warning's module that are only ever called from create_warning (transitively)."""
+    g = get_callgraph(corpus)
+    callers = g.callers()
+    conf: dict[str, FunctionInfo] = {cw.fq: cw}
+    changed = True
+    while changed:
+        changed = False
+        for f in cw.module.functions.values():
+            cs = callers.get(f.fq, [])
+            if f.fq not in conf and cs and all(c.fq in conf for c, _ in cs):
+                conf[f.fq] = f
+                changed = True
+    return conf
 
 
 @rule("C14.R4")
 def r4_suppression_confined(corpus: Corpus, rep: Report, tier: str):
-    rep.rule("C14.R4", "only create_warning consults suppression; test (on the emitted tag) precedes node creation; every suppress entry is consulted; accepted forms are type / type.sub / type.*")
+    rep.rule("C14.R4", "only create_warning (and helpers private to it) consults suppression; test (on the emitted tag) precedes node creation; every suppress entry is consulted; accepted forms are type / type.sub / type.*")
     g = get_callgraph(corpus)
     w = corpus.mod("warnings_")
     isw = w.func("_is_suppressed_warning")
     cw = w.func("create_warning")
+    conf = _confined_helpers(corpus, cw)
     # (a) who calls _is_suppressed_warning
     for fi, call in g.callers().get(isw.fq, []):
         k = f"{fi.fq}|calls _is_suppressed_warning"
         if fi.fq == cw.fq:
             rep.ok("C14.R4", k, fi.module.site(call))
+        elif fi.fq in conf:
+            rep.ok("C14.R4", k, fi.module.site(call), "helper only called from create_warning")
         else:
             rep.violation("C14.R4", k, fi.module.site(call), "suppression is consulted outside create_warning: behaviour other than the warning itself can depend on suppress_warnings")
     # (b) who reads suppress_warnings
@@ -494,22 +699,57 @@ def r4_suppression_confined(corpus: Corpus, rep: Report, tier: str):
                 k = f"{fi.fq}|reads {n.attr}"
                 if owner.fq in allowed_readers:
                     rep.ok("C14.R4", k, fi.module.site(n), allowed_readers[owner.fq])
+                elif owner.fq in conf:
+                    rep.ok("C14.R4", k, fi.module.site(n), "helper only called from create_warning")
                 else:
                     rep.violation("C14.R4", k, fi.module.site(n), f"{fi.qualname} reads {n.attr}: output other than the suppressed warning may depend on the suppress list")
     # (c) inside create_warning: per front-end branch, suppression test first, node built after
-    _check_create_warning(cw, isw, rep)
+    resolver = _resolver_of(corpus)
+    _check_create_warning(cw, isw, rep, resolver, conf)
     # (d) every entry consulted + accepted forms in _is_suppressed_warning
     em = _emissions(corpus)
     dotfree = all("." not in v for v in em.members.values()) and all("." not in a and "." not in b for a, b in NON_MYST_PAIRS)
-    _check_forms(isw, rep, dotfree)
+    _check_forms(isw, rep, dotfree, resolver)
 
 
-def _check_create_warning(cw: FunctionInfo, isw: FunctionInfo, rep: Report) -> None:
+def _check_create_warning(cw: FunctionInfo, isw: FunctionInfo, rep: Report, resolver=None, conf: dict[str, FunctionInfo] | None = None) -> None:
     cfg = get_cfg(cw)
-    roles = _TagRoles(cw)
+    roles = _TagRoles(cw, resolver)
+    conf = conf or {}
+    p_type, p_sub = isw.params[0], isw.params[1]
+
+    def answer_args(c: ast.AST) -> tuple[ast.expr | None, ast.expr | None] | None:
+        """If ``c`` is a call whose value is the suppression answer: the (type, subtype) expressions, in
+        create_warning's terms, that it is asked about."""
+        if not isinstance(c, ast.Call):
+            return None
+        if dotted(c.func) == isw.name:
+            return arg_or_kw(c, 0, p_type), arg_or_kw(c, 1, p_sub)
+        if resolver is None:
+            return None
+        try:
+            ts = resolver(c, cw)
+        except Exception:
+            return None
+        if len(ts) != 1 or ts[0].fq not in conf or ts[0].fq in (cw.fq, isw.fq):
+            return None
+        h = ts[0]
+        inner = [n for n in h.local_nodes() if isinstance(n, ast.Call) and dotted(n.func) == isw.name]
+        if len(inner) != 1:
+            return None
+        hr = _TagRoles(h)
+        val = hr.deref(_return_expr(h))
+        if val is not inner[0]:
+            return None  # the helper does not simply return the answer
+        bound = _bind_call(c, h) or {}
+        out = []
+        for a in (arg_or_kw(inner[0], 0, p_type), arg_or_kw(inner[0], 1, p_sub)):
+            a = hr.deref(a)
+            out.append(bound.get(a.id) if isinstance(a, ast.Name) and a.id in bound else None)
+        return out[0], out[1]
 
     def supp_calls(e: ast.AST) -> list[ast.Call]:
-        return [c for c in ast.walk(e) if isinstance(c, ast.Call) and dotted(c.func) == isw.name]
+        return [c for c in ast.walk(e) if answer_args(c) is not None]  # type: ignore[misc]
 
     # names that hold the answer of the suppression test (``suppressed = _is_suppressed_warning(...)``)
     answer_names = {nm for nm, v in roles.defs.items() if roles.counts.get(nm) == 1 and supp_calls(v)}
@@ -520,24 +760,19 @@ def _check_create_warning(cw: FunctionInfo, isw: FunctionInfo, rep: Report) -> N
         if not (supp_calls(n.test) or (_names(n.test) & answer_names)):
             continue
         core, flip = _strip_not(n.test)
-        if not ((isinstance(core, ast.Call) and dotted(core.func) == isw.name) or (isinstance(core, ast.Name) and core.id in answer_names)):
+        if not (answer_args(core) is not None or (isinstance(core, ast.Name) and core.id in answer_names)):
             rep.error("C14.R4", f"create_warning: suppression answer is combined with other conditions in `{short(n.test, 60)}` (not understood)")
             return
         tests.append((n, not flip))
-    builders = []
-    for n in cw.local_nodes():
-        if isinstance(n, ast.Call):
-            d = dotted(n.func) or ""
-            if d == "_create_warning_node" or d.endswith("reporter.warning") or d.endswith(".append"):
-                builders.append(n)
-    all_calls = [n for n in cw.local_nodes() if isinstance(n, ast.Call) and dotted(n.func) == isw.name]
+    found = _node_builders(cw, resolver)
+    builders = [c for c, _, _ in found] + [n for n in cw.local_nodes() if isinstance(n, ast.Call) and (dotted(n.func) or "").endswith(".append")]
+    all_calls = [n for n in cw.local_nodes() if answer_args(n) is not None]
     if not tests or not all_calls or len(builders) < 2:
         rep.error("C14.R4", f"create_warning shape not understood ({len(tests)} suppression tests, {len(builders)} node builders)")
         return
-    p_type, p_sub = isw.params[0], isw.params[1]
     for call in all_calls:
         k = f"{cw.fq}|{short(call, 80)}|arguments"
-        a0, a1 = arg_or_kw(call, 0, p_type), arg_or_kw(call, 1, p_sub)
+        a0, a1 = answer_args(call)  # type: ignore[misc]
         t, s = roles.classify_type(a0), roles.classify_sub(a1)
         site = cw.module.site(call)
         if t[0] == "ok" and s[0] == "ok":
@@ -552,17 +787,18 @@ def _check_create_warning(cw: FunctionInfo, isw: FunctionInfo, rep: Report) -> N
     for t, pos in tests:
         k = f"{cw.fq}|{short(t.test, 80)}"
         site = cw.module.site(t)
-        if not pos:
-            rep.error("C14.R4", f"create_warning: inverted suppression test `{short(t.test, 50)}` (not understood)")
+        branch = t.body if pos else t.orelse  # what runs for a suppressed warning
+        if not branch:
+            rep.error("C14.R4", f"create_warning: inverted suppression test `{short(t.test, 50)}` without an else branch (not understood)")
             continue
-        clear_edges.add(("F", t))
-        body = [s for s in t.body if not isinstance(s, ast.Pass) and not (isinstance(s, ast.Expr) and isinstance(s.value, ast.Constant))]
+        clear_edges.add(("F" if pos else "T", t))
+        body = [s for s in branch if not isinstance(s, ast.Pass) and not (isinstance(s, ast.Expr) and isinstance(s.value, ast.Constant))]
         last = body[-1] if body else None
         if not (isinstance(last, ast.Return) and (last.value is None or is_const(last.value, None))):
             rep.violation("C14.R4", k, site, "a suppressed warning must return None at once; the branch does something else")
             continue
         extra = body[:-1]
-        eff = [c for s in extra for c in ast.walk(s) if isinstance(c, ast.Call) and (dotted(c.func) or "").endswith(_NODE_EFFECTS)]
+        eff = [c for s in extra for c in ast.walk(s) if isinstance(c, ast.Call) and ((dotted(c.func) or "").endswith(_NODE_EFFECTS) or any(c is b for b in builders))]
         if eff:
             rep.violation("C14.R4", k, site, f"a suppressed warning must return None at once; the branch also runs `{short(eff[0], 50)}`")
         elif extra:
@@ -634,65 +870,178 @@ def _vrepr(e: ast.expr) -> str:
 
 
 class _Forms:
-    """Roles inside the loop of _is_suppressed_warning: entry, part before the first dot, part after it."""
+    """Roles in one scope of the suppression matcher (the loop body of _is_suppressed_warning, or a helper it
+    calls with the entry): entry, part before the first dot, part after it.  Conditional expressions are
+    branches; a helper called with the entry is followed (parameters substituted), its names prefixed."""
 
-    def __init__(self, isw: FunctionInfo, loop: ast.For, p_type: str, p_sub: str, p_list: str):
-        self.isw, self.loop = isw, loop
+    RET = ("<ret0>", "<ret1>")
+
+    def __init__(self, fi: FunctionInfo, body: list[ast.AST], entry: str, p_type: str, p_sub: str, p_list: str, resolver, prefix: str = "", depth: int = 0):
+        self.fi = fi
         self.p_type, self.p_sub, self.p_list = p_type, p_sub, p_list
-        self.entry = loop.target.id  # type: ignore[union-attr]
-        self.body_nodes = {id(n) for st in loop.body for n in ast.walk(st)}
-        self.loopnames = {self.entry} | {n.id for st in loop.body for n in ast.walk(st) if isinstance(n, ast.Name) and isinstance(n.ctx, ast.Store)}
+        self.entry = entry
+        self.resolver, self.prefix, self.depth = resolver, prefix, depth
+        self.cfg = get_cfg(fi) if not fi.is_lambda else None
+        self.body_nodes = {id(n) for st in body for n in ast.walk(st)}
+        self.loopnames = {entry} | {n.id for st in body for n in ast.walk(st) if isinstance(n, ast.Name) and isinstance(n.ctx, ast.Store)}
         self.heads: dict[str, set] = {}
         self.tails: dict[str, set] = {}
         self.unknown: set[str] = set()
-        self.split_stmts: list[ast.stmt] = []
-        for n in isw.local_nodes():
-            if id(n) not in self.body_nodes:
-                continue
+        self.aliases: list[tuple[str, str]] = []
+        self.split_sites: list[tuple[ast.AST, FunctionInfo, list[tuple]]] = []  # (construct, function, facts that hold there)
+        self.split_calls: list[tuple[ast.Call, FunctionInfo]] = []
+        self._pred_cache: dict[int, tuple] = {}
+        local = [n for st in body for n in ast.walk(st)]
+        for n in local:
+            if self.is_split(n):
+                self.split_calls.append((n, fi))  # type: ignore[arg-type]
             if isinstance(n, ast.Assign):
                 if len(n.targets) != 1:
-                    self.unknown |= _names(n)
+                    self.unknown |= {self.prefix + x for x in _names(n)}
                     continue
-                self._assign(n, n.targets[0], n.value)
+                self._bind(n, n.targets[0], n.value, [])
             elif isinstance(n, ast.AnnAssign) and n.value is not None:
-                self._assign(n, n.target, n.value)
+                self._bind(n, n.target, n.value, [])
             elif isinstance(n, (ast.AugAssign, ast.NamedExpr)):
-                self.unknown |= {x.id for x in ast.walk(n.target) if isinstance(x, ast.Name)}
-            elif isinstance(n, (ast.For, ast.comprehension, ast.With)) and n is not loop:
+                self.unknown |= {self.prefix + x.id for x in ast.walk(n.target) if isinstance(x, ast.Name)}
+            elif isinstance(n, (ast.For, ast.comprehension, ast.With)):
                 t = getattr(n, "target", None)
-                if t is not None:
-                    self.unknown |= _names(t)
+                if t is not None and not (isinstance(t, ast.Name) and t.id == entry):
+                    self.unknown |= {self.prefix + x for x in _names(t)}
+
+    def finish(self) -> None:
+        """Propagate roles through plain copies (``a = target``, ``return target, subtarget``)."""
+        for _ in range(4):
+            for dst, src in self.aliases:
+                if src in self.unknown or not (src in self.heads or src in self.tails):
+                    self.unknown.add(dst)
+                if src in self.heads:
+                    self.heads.setdefault(dst, set()).update(self.heads[src])
+                if src in self.tails:
+                    self.tails.setdefault(dst, set()).update(self.tails[src])
 
     def is_split(self, e: ast.AST) -> bool:
         return isinstance(e, ast.Call) and isinstance(e.func, ast.Attribute) and e.func.attr in ("split", "rsplit") and _is_name(e.func.value, self.entry)
 
-    def _assign(self, st: ast.stmt, tgt: ast.expr, val: ast.expr) -> None:
+    def lit(self, e: ast.expr) -> ast.expr:
+        """Hoisted constants: a name bound once to a literal (outside the role names of this scope)."""
+        if isinstance(e, ast.Name) and e.id not in self.loopnames:
+            return _lit(e, self.fi) or e
+        return e
+
+    def stmt_facts(self, st: ast.AST, extra: list[tuple[ast.expr, bool]]) -> list[tuple]:
+        out: list[tuple] = []
+        if self.cfg is not None and isinstance(st, ast.stmt):
+            out += [self.classify(t, pol) for t, pol in self.cfg.guards(st)]
+        for test, pol in extra:
+            out += [self.classify(t, p) for t, p in flow_facts(test, pol)]
+        return _flat(out)
+
+    def _helper(self, call: ast.expr) -> FunctionInfo | None:
+        if not isinstance(call, ast.Call) or self.depth >= 2 or self.resolver is None:
+            return None
+        try:
+            targets = self.resolver(call, self.fi)
+        except Exception:
+            return None
+        if len(targets) != 1 or targets[0].is_lambda or targets[0].fq == self.fi.fq:
+            return None
+        return targets[0]
+
+    def _bind_params(self, call: ast.Call, h: FunctionInfo) -> dict[str, str] | None:
+        """helper parameter -> the plain name passed for it (None if the call is not that simple)."""
+        params = [p for p in h.params if p not in ("self", "cls")] if h.cls is not None else list(h.params)
+        if any(isinstance(a, ast.Starred) for a in call.args) or any(k.arg is None for k in call.keywords) or len(call.args) > len(params):
+            return None
+        bound: dict[str, str] = {}
+        for p, a in list(zip(params, call.args)) + [(k.arg, k.value) for k in call.keywords]:
+            if not isinstance(a, ast.Name) or p not in params:
+                return None
+            bound[p] = a.id  # type: ignore[index]
+        return bound
+
+    def _sub_scope(self, call: ast.Call, h: FunctionInfo) -> "_Forms | None":
+        bound = self._bind_params(call, h)
+        if bound is None:
+            return None
+        inv = {v: k for k, v in bound.items()}
+        if self.entry not in inv or len(inv) != len(bound):
+            return None
+        if not set(bound.values()) <= {self.entry, self.p_type, self.p_sub, self.p_list}:
+            return None
+        closure = h.parent_func is not None and h.parent_func.fq == self.fi.fq
+        rebound = set(h.params) | {n.id for n in h.local_nodes() if isinstance(n, ast.Name) and isinstance(n.ctx, ast.Store)}
+
+        def role(p: str, none: str) -> str:
+            if p in inv:
+                return inv[p]
+            return p if closure and p not in rebound else none  # a nested function still sees the enclosing name
+
+        sub = _Forms(h, list(h.node.body), inv[self.entry], role(self.p_type, "\0type"), role(self.p_sub, "\0sub"), role(self.p_list, "\0list"), self.resolver, prefix=f"{self.prefix}{h.name}:", depth=self.depth + 1)
+        for r in (n for n in h.local_nodes() if isinstance(n, ast.Return) and n.value is not None):
+            if isinstance(r.value, ast.Tuple) or isinstance(r.value, ast.IfExp) or sub.is_split(r.value):
+                sub._bind(r, ast.Tuple(elts=[ast.Name(id=sub.RET[0], ctx=ast.Store()), ast.Name(id=sub.RET[1], ctx=ast.Store())], ctx=ast.Store()), r.value, [])
+        sub.finish()
+        return sub
+
+    def _absorb(self, sub: "_Forms") -> None:
+        for k, v in sub.heads.items():
+            self.heads.setdefault(k, set()).update(v)
+        for k, v in sub.tails.items():
+            self.tails.setdefault(k, set()).update(v)
+        self.unknown |= sub.unknown
+        self.split_sites += sub.split_sites
+        self.split_calls += sub.split_calls
+
+    def _bind(self, st: ast.AST, tgt: ast.expr, val: ast.expr, extra: list[tuple[ast.expr, bool]]) -> None:
+        if isinstance(val, ast.IfExp):  # a conditional expression is a branch
+            self._bind(st, tgt, val.body, extra + [(val.test, True)])
+            self._bind(st, tgt, val.orelse, extra + [(val.test, False)])
+            return
+        px = self.prefix
         if isinstance(tgt, (ast.Tuple, ast.List)) and len(tgt.elts) == 2 and all(isinstance(x, ast.Name) for x in tgt.elts):
-            a, b = tgt.elts[0].id, tgt.elts[1].id  # type: ignore[union-attr]
+            a, b = px + tgt.elts[0].id, px + tgt.elts[1].id  # type: ignore[union-attr]
             if self.is_split(val):
                 self.heads.setdefault(a, set()).add("split")
                 self.tails.setdefault(b, set()).add("split")
-                self.split_stmts.append(st)
+                self.split_sites.append((st, self.fi, self.stmt_facts(st, extra)))
                 return
             if isinstance(val, (ast.Tuple, ast.List)) and len(val.elts) == 2:
-                self._single(st, a, val.elts[0])
-                self._single(st, b, val.elts[1])
+                self._single(st, a, val.elts[0], extra)
+                self._single(st, b, val.elts[1], extra)
                 return
+            h = self._helper(val)
+            if h is not None:
+                sub = self._sub_scope(val, h)  # type: ignore[arg-type]
+                if sub is not None and set((self._bind_params(val, h) or {}).values()) == {self.entry}:  # type: ignore[arg-type]
+                    # the split runs inside the helper under the helper's own conditions AND the ones here
+                    here = self.stmt_facts(st, extra)
+                    sub.split_sites = [(n, f, fs + here) for n, f, fs in sub.split_sites]
+                    self._absorb(sub)
+                    self.aliases.append((a, sub.prefix + sub.RET[0]))
+                    self.aliases.append((b, sub.prefix + sub.RET[1]))
+                    return
             self.unknown |= {a, b}
         elif isinstance(tgt, ast.Name):
-            self._single(st, tgt.id, val)
+            self._single(st, px + tgt.id, val, extra)
         else:
-            self.unknown |= {x.id for x in ast.walk(tgt) if isinstance(x, ast.Name)}
+            self.unknown |= {px + x.id for x in ast.walk(tgt) if isinstance(x, ast.Name)}
 
-    def _single(self, st: ast.stmt, name: str, val: ast.expr) -> None:
-        if _is_name(val, self.entry):
+    def _single(self, st: ast.AST, name: str, val: ast.expr, extra: list[tuple[ast.expr, bool]]) -> None:
+        if isinstance(val, ast.IfExp):
+            self._single(st, name, val.body, extra + [(val.test, True)])
+            self._single(st, name, val.orelse, extra + [(val.test, False)])
+        elif _is_name(val, self.entry):
             self.heads.setdefault(name, set()).add("bare")
-        elif isinstance(val, ast.Constant):
+        elif isinstance(self.lit(val), ast.Constant):
+            val = self.lit(val)
             self.tails.setdefault(name, set()).add(("const", val.value))
         elif isinstance(val, ast.Subscript) and self.is_split(val.value) and isinstance(val.slice, ast.Constant) and val.slice.value in (0, 1):
             (self.heads if val.slice.value == 0 else self.tails).setdefault(name, set()).add("split")
             if val.slice.value == 1:
-                self.split_stmts.append(st)
+                self.split_sites.append((st, self.fi, self.stmt_facts(st, extra)))
+        elif isinstance(val, ast.Name):
+            self.aliases.append((name, self.prefix + val.id))
         else:
             self.unknown.add(name)
 
@@ -707,23 +1056,59 @@ class _Forms:
         if not (isinstance(e, ast.Compare) and len(e.ops) == 1 and isinstance(e.left, ast.Name) and e.left.id in self.loopnames and e.left.id != self.entry):
             return None
         op, right = e.ops[0], e.comparators[0]
-        if self.p_type in _names(right):
-            return None
+
+        def vr(x: ast.expr) -> str | None:
+            if _is_name(x, self.p_sub):
+                return "<subtype>"
+            if _is_name(x, self.p_type):
+                return "<type>"
+            x = self.lit(x)
+            return repr(x.value) if isinstance(x, ast.Constant) else None  # any other name: not understood
+
+        if not (_is_name(right, self.p_sub) or _is_name(right, self.p_type)):
+            right = self.lit(right)
+        if isinstance(right, ast.Call) and dotted(right.func) == "frozenset" and len(right.args) == 1:
+            right = right.args[0]
         if isinstance(op, (ast.In, ast.NotIn)) and isinstance(right, (ast.Tuple, ast.List, ast.Set)):
-            return e.left.id, {_vrepr(x) for x in right.elts}, isinstance(op, ast.NotIn)
+            vals = {vr(x) for x in right.elts}
+            return None if None in vals else (self.prefix + e.left.id, vals, isinstance(op, ast.NotIn))  # type: ignore[return-value]
         if isinstance(op, (ast.Is, ast.Eq, ast.IsNot, ast.NotEq)) and isinstance(right, (ast.Constant, ast.Name)):
-            return e.left.id, {_vrepr(right)}, isinstance(op, (ast.IsNot, ast.NotEq))
+            v = vr(right)
+            return None if v is None else (self.prefix + e.left.id, {v}, isinstance(op, (ast.IsNot, ast.NotEq)))
         return None
+
+    def _predicate(self, call: ast.Call, pol: bool) -> tuple | None:
+        """``_matches(entry, type, subtype)``: follow a predicate helper; facts that hold when it is true."""
+        if id(call) in self._pred_cache:
+            got = self._pred_cache[id(call)]
+        else:
+            got = ()
+            h = self._helper(call)
+            sub = self._sub_scope(call, h) if h is not None else None
+            if sub is not None and h is not None:
+                rets = [n for n in h.local_nodes() if isinstance(n, ast.Return)]
+                can = [r for r in rets if not (r.value is None or is_const(r.value, None) or is_const(r.value, False))]
+                if len(can) == 1:
+                    r = can[0]
+                    fs = sub.stmt_facts(r, [] if is_const(r.value, True) else [(r.value, True)])
+                    self._absorb(sub)
+                    got = ("and", fs)
+            self._pred_cache[id(call)] = got
+        if not got:
+            return None
+        return got if pol else ("loop-unknown", f"not {unparse(call)}")
 
     def classify(self, test: ast.expr, pol: bool) -> tuple:
         """One branch fact -> (kind, ...):
         ("type", name, holds) name ==/!= warning type; ("sub", name, values, holds); ("dot", holds) '.' in entry;
         ("bare-member", holds) warning type in suppress list; ("harmless", why); ("harmless-entry", why);
-        ("or", [facts]) a disjunction; ("loop-unknown", text) / ("inv-unknown", text)."""
+        ("or", [facts]) a disjunction; ("and", [facts]) a conjunction (from a followed helper);
+        ("loop-unknown", text) / ("inv-unknown", text)."""
         core, flip = _strip_not(test)
         if flip:
             return self.classify(core, not pol)
         names = _names(test)
+        px = self.prefix
         if isinstance(test, ast.BoolOp):
             if isinstance(test.op, ast.Or) and pol:
                 tv = self.tail_values(test)
@@ -731,14 +1116,14 @@ class _Forms:
                     return ("sub", tv[0], tv[1], True)
             if isinstance(test.op, ast.Or) == pol:  # Or/True, And/False: a disjunction
                 return ("or", [self.classify(v, pol) for v in test.values])
-            return ("loop-unknown" if names & self.loopnames else "inv-unknown", unparse(test))
+            return ("and", [self.classify(v, pol) for v in test.values])
         if isinstance(test, ast.Compare) and len(test.ops) == 1 and isinstance(test.ops[0], (ast.Eq, ast.NotEq)):
             l, r = test.left, test.comparators[0]
             for x, y in ((l, r), (r, l)):
                 if _is_name(x, self.p_type) and isinstance(y, ast.Name) and y.id in self.loopnames:
-                    return ("type", y.id, pol == isinstance(test.ops[0], ast.Eq))
+                    return ("type", px + y.id, pol == isinstance(test.ops[0], ast.Eq))
         if isinstance(test, ast.Compare) and len(test.ops) == 1 and isinstance(test.ops[0], (ast.In, ast.NotIn)):
-            if is_const(test.left, ".") and _is_name(test.comparators[0], self.entry):
+            if is_const(self.lit(test.left), ".") and _is_name(test.comparators[0], self.entry):
                 return ("dot", pol == isinstance(test.ops[0], ast.In))
             if _is_name(test.left, self.p_type) and _is_name(test.comparators[0], self.p_list):
                 return ("bare-member", pol == isinstance(test.ops[0], ast.In))
@@ -751,6 +1136,10 @@ class _Forms:
                 return ("harmless-entry", "non-empty entry")
             if isinstance(test, ast.Call) and dotted(test.func) == "isinstance" and len(test.args) == 2 and _is_name(test.args[0], self.entry) and dotted(test.args[1]) == "str" and pol:
                 return ("harmless-entry", "str entry")
+            if isinstance(test, ast.Call):
+                got = self._predicate(test, pol)
+                if got is not None:
+                    return got
             return ("loop-unknown", unparse(test))
         # loop-invariant
         if isinstance(test, ast.Compare) and len(test.ops) == 1 and isinstance(test.left, ast.Name) and test.left.id in (self.p_type, self.p_sub, self.p_list) and is_const(test.comparators[0], None) and isinstance(test.ops[0], (ast.Is, ast.IsNot, ast.Eq, ast.NotEq)):
@@ -760,25 +1149,37 @@ class _Forms:
         return ("inv-unknown", unparse(test))
 
 
+def _flat(fs: list[tuple]) -> list[tuple]:
+    out: list[tuple] = []
+    for f in fs:
+        if f[0] == "and":
+            out += _flat(f[1])
+        else:
+            out.append(f)
+    return out
+
+
 def _f_unknown(f: tuple) -> bool:
-    return f[0] in ("loop-unknown", "inv-unknown") or (f[0] == "or" and any(_f_unknown(x) for x in f[1]))
+    return f[0] in ("loop-unknown", "inv-unknown") or (f[0] in ("or", "and") and any(_f_unknown(x) for x in f[1]))
 
 
 def _f_loopdep(f: tuple) -> bool:
-    return f[0] in ("type", "sub", "dot", "loop-unknown", "harmless-entry") or (f[0] == "or" and any(_f_loopdep(x) for x in f[1]))
+    return f[0] in ("type", "sub", "dot", "loop-unknown", "harmless-entry") or (f[0] in ("or", "and") and any(_f_loopdep(x) for x in f[1]))
 
 
 def _f_implies(f: tuple, kind: str) -> bool:
+    if f[0] == "and":
+        return any(_f_implies(x, kind) for x in f[1])
     return (f[0] == kind and f[-1] is True) or (f[0] == "or" and bool(f[1]) and all(_f_implies(x, kind) for x in f[1]))
 
 
 def _f_text(f: tuple) -> str:
-    if f[0] == "or":
-        return " or ".join(_f_text(x) for x in f[1])
+    if f[0] in ("or", "and"):
+        return f" {f[0]} ".join(_f_text(x) for x in f[1])
     return str(f[1]) if f[0].endswith("unknown") else f[0]
 
 
-def _check_forms(isw: FunctionInfo, rep: Report, dotfree: bool) -> None:
+def _check_forms(isw: FunctionInfo, rep: Report, dotfree: bool, resolver=None) -> None:
     R = "C14.R4"
     params = isw.params
     if len(params) < 3:
@@ -793,51 +1194,73 @@ def _check_forms(isw: FunctionInfo, rep: Report, dotfree: bool) -> None:
     viol: list[tuple[str, str, str]] = []
     unsup: list[str] = []
 
-    # the loop over the suppress list
+    # the scan of the suppress list: a for loop, or `return any(<match> for <entry> in <suppress list>)`
     loops = [n for n in isw.local_nodes() if isinstance(n, ast.For) and p_list in _names(n.iter)]
-    if len(loops) != 1 or not isinstance(loops[0].target, ast.Name):
-        rep.error(R, f"_is_suppressed_warning: expected one `for <entry> in <suppress list>` loop, found {len(loops)} (rewritten in an unknown idiom)")
+    gens = [
+        n
+        for n in isw.local_nodes()
+        if isinstance(n, ast.Return) and isinstance(n.value, ast.Call) and dotted(n.value.func) == "any" and len(n.value.args) == 1 and not n.value.keywords
+        and isinstance(n.value.args[0], (ast.GeneratorExp, ast.ListComp)) and len(n.value.args[0].generators) == 1 and p_list in _names(n.value.args[0].generators[0].iter)
+    ]
+    loop: ast.For | None = None
+    gen_ret: ast.Return | None = None
+    if len(loops) == 1 and not gens and isinstance(loops[0].target, ast.Name):
+        loop = loops[0]
+        it, entry, body = loop.iter, loop.target.id, list(loop.body)
+        scan_site = msite(loop)
+    elif len(gens) == 1 and not loops and isinstance(gens[0].value.args[0].generators[0].target, ast.Name):  # type: ignore[union-attr]
+        gen_ret = gens[0]
+        comp = gen_ret.value.args[0].generators[0]  # type: ignore[union-attr]
+        it, entry, body = comp.iter, comp.target.id, [gen_ret.value]
+        scan_site = msite(gen_ret)
+    else:
+        rep.error(R, f"_is_suppressed_warning: expected one `for <entry> in <suppress list>` loop or one `return any(... for <entry> in <suppress list>)`, found {len(loops)} / {len(gens)} (rewritten in an unknown idiom)")
         return
-    loop = loops[0]
-    cover = _covers_list(loop.iter, p_list)
+    cover = _covers_list(it, p_list)
     if cover == "part":
-        viol.append((kc + "|loop range", msite(loop), f"the loop ranges over `{unparse(loop.iter)}`, a part of the suppress list: the other entries are never consulted"))
+        viol.append((kc + "|loop range", scan_site, f"the scan ranges over `{unparse(it)}`, a part of the suppress list: the other entries are never consulted"))
     elif cover == "unknown":
-        unsup.append(f"cannot decide whether `{unparse(loop.iter)}` visits every entry of the suppress list")
-    fm = _Forms(isw, loop, p_type, p_sub, p_list)
+        unsup.append(f"cannot decide whether `{unparse(it)}` visits every entry of the suppress list")
+    fm = _Forms(isw, body, entry, p_type, p_sub, p_list, resolver)
 
     def in_body(n: ast.AST) -> bool:
         return id(n) in fm.body_nodes
 
     def guard_facts(st: ast.stmt) -> list[tuple]:
-        return [fm.classify(t, pol) for t, pol in cfg.guards(st)]
+        return _flat([fm.classify(t, pol) for t, pol in cfg.guards(st)])
+
+    # classify every condition first: followed helpers contribute their roles and split sites
+    rets = [n for n in isw.local_nodes() if isinstance(n, ast.Return)]
+    ret_facts = {id(r): guard_facts(r) for r in rets}
+    gen_facts: list[tuple] = []
+    if gen_ret is not None:
+        g0 = gen_ret.value.args[0]  # type: ignore[union-attr]
+        gen_facts = ret_facts[id(gen_ret)] + fm.stmt_facts(gen_ret, [(g0.elt, True)] + [(c, True) for c in g0.generators[0].ifs])
+    fm.finish()
 
     # the split: on the first dot only, and only when there is a dot
-    splits = [c for c in isw.local_nodes() if fm.is_split(c)]
-    if not splits:
+    if not fm.split_calls:
         unsup.append("no `<entry>.split('.', 1)` found (entry decomposed in an unknown idiom)")
-    for c in splits:
-        sep, mx = arg_or_kw(c, 0, "sep"), arg_or_kw(c, 1, "maxsplit")
+    for c, cfi in fm.split_calls:
+        sep, mx = _lit(arg_or_kw(c, 0, "sep"), cfi), _lit(arg_or_kw(c, 1, "maxsplit"), cfi)
         if not is_const(sep, "."):
-            viol.append((kf + "|split", msite(c), f"the entry is split on {unparse(sep) if sep is not None else 'whitespace'}, not on '.'"))
+            viol.append((kf + "|split", cfi.module.site(c), f"the entry is split on {unparse(sep) if sep is not None else 'whitespace'}, not on '.'"))
         elif not is_const(mx, 1):
-            viol.append((kf + "|split", msite(c), "the entry is not split on the first dot only (maxsplit=1): an entry with two dots cannot be unpacked into (type, subtype)"))
+            viol.append((kf + "|split", cfi.module.site(c), "the entry is not split on the first dot only (maxsplit=1): an entry with two dots cannot be unpacked into (type, subtype)"))
         elif c.func.attr == "rsplit" and not dotfree:  # type: ignore[union-attr]
-            viol.append((kf + "|split", msite(c), "the entry is split on the last dot although catalogue tags contain dots"))
-    for st in fm.split_stmts:
-        fs = guard_facts(st)
+            viol.append((kf + "|split", cfi.module.site(c), "the entry is split on the last dot although catalogue tags contain dots"))
+    for st, sfi, fs in fm.split_sites:
         dots = [f for f in fs if f[0] == "dot"]
         if any(f[1] for f in dots):
             continue
         if dots:
-            viol.append((kf + "|bare type", msite(st), "the two-part unpack of the split runs when the entry has NO dot: a bare type entry raises ValueError instead of matching"))
+            viol.append((kf + "|bare type", sfi.module.site(st), "the second part of the split is taken when the entry has NO dot: a bare type entry raises (ValueError/IndexError) instead of matching"))
         elif any(isinstance(a, (ast.Try, ast.Match)) for a in ancestors(st)) or any(_f_unknown(f) for f in fs):
             unsup.append(f"cannot decide whether `{short(st, 50)}` only runs for entries with a dot")
         else:
-            viol.append((kf + "|bare type", msite(st), "the two-part unpack of the split is not guarded by `'.' in entry`: a bare type entry raises ValueError instead of matching"))
+            viol.append((kf + "|bare type", sfi.module.site(st), "the second part of the split is taken without a `'.' in entry` guard: a bare type entry raises (ValueError/IndexError) instead of matching"))
 
     # exits
-    rets = [n for n in isw.local_nodes() if isinstance(n, ast.Return)]
     breaks = [n for n in isw.local_nodes() if isinstance(n, ast.Break) and in_body(n) and next((a for a in ancestors(n) if isinstance(a, (ast.For, ast.While))), None) is loop]
 
     def rkind(r: ast.Return) -> str:
@@ -850,6 +1273,8 @@ def _check_forms(isw: FunctionInfo, rep: Report, dotfree: bool) -> None:
     def reachable_without(r: ast.stmt, kind: str) -> bool:
         """Is there a path to ``r`` (from the start of an iteration / of the function) on which every branch
         taken is understood and none of them establishes the fact ``kind``?"""
+        if r is gen_ret:
+            return True  # all conditions of the generator are in the fact list itself
 
         def blocks(n) -> bool:
             if not (isinstance(n, tuple) and n[0] in ("T", "F") and isinstance(n[1], (ast.If, ast.While))):
@@ -859,80 +1284,98 @@ def _check_forms(isw: FunctionInfo, rep: Report, dotfree: bool) -> None:
 
         return cfg.paths_avoiding(("T", loop) if in_body(r) else "ENTRY", r, blocks)
 
-    positives_ok = 0
+    covered: set[str] = set()  # accepted forms established by the positive answers: bare / sub / star
+    judged: list[ast.Return] = []
+
+    def judge_positive(r: ast.Return, fs: list[tuple], scanning: bool) -> None:
+        """A positive answer under the facts ``fs``: which of the three forms does it accept, and nothing else?"""
+        unknown_f = [f for f in fs if _f_unknown(f)]
+        if unknown_f:
+            unsup.append(f"positive answer under condition(s) not understood: {'; '.join(_f_text(f) for f in unknown_f)[:120]}")
+            return
+        if not scanning:
+            if any(_f_implies(f, "bare-member") for f in fs):
+                return  # `if type in suppress_list: return True` - the bare type form, decided early
+        dots = {f[1] for f in fs if f[0] == "dot"}
+        if len(dots) == 2:
+            return  # contradictory: dead code
+        case = None if not dots else ("dotted" if True in dots else "bare")  # entries this answer is given for
+        types = [f for f in fs if f[0] == "type" and f[2]]
+        subs = [f for f in fs if f[0] == "sub" and f[3]]
+        if not types:
+            if reachable_without(r, "type"):
+                viol.append((kf + "|type", msite(r), "a positive answer is given without comparing the entry's type part with the warning's type: entries of another type suppress the warning"))
+            else:
+                unsup.append("positive answer: the type comparison does not dominate it (merged paths not understood)")
+            return
+        if not subs and case != "bare":
+            if reachable_without(r, "sub"):
+                viol.append((kf + "|sub-target", msite(r), "a positive answer is given without testing the part after the dot: `type.other_subtype` suppresses every warning of the type"))
+            else:
+                unsup.append("positive answer: the sub-target test does not dominate it (merged paths not understood)")
+            return
+        need = {"dotted": {"split"}, "bare": {"bare"}, None: {"split", "bare"}}[case]
+        bad_here = False
+        for _, h, _pol in types:
+            roles_h = fm.heads.get(h, set()) | ({"bare"} if h == fm.entry else set())
+            if h in fm.tails:
+                viol.append((kf + "|roles", msite(r), f"`{h}`, compared with the warning type, holds the part AFTER the dot (or the bare-entry sentinel) on some path: type.subtype entries no longer match"))
+                bad_here = True
+            elif h in fm.unknown or not need <= roles_h:
+                unsup.append(f"cannot derive `{h}` as the entry's type part on {'both the dotted and the bare path' if case is None else 'the ' + case + ' path'}")
+                bad_here = True
+        here: set[str] = {"bare"} if case == "bare" and not subs else set()
+        for _, t, vals, _pol in subs:
+            roles_t = fm.tails.get(t, set())
+            consts = {x[1] for x in roles_t if isinstance(x, tuple)}
+            if t in fm.heads or t == fm.entry:
+                if not any(f[1] in fm.tails for f in types):
+                    viol.append((kf + "|roles", msite(r), f"`{t}`, tested against the accepted sub-targets, holds the part BEFORE the dot on some path"))
+                bad_here = True
+                continue
+            if t in fm.unknown or (case != "bare" and "split" not in roles_t) or (case != "dotted" and not consts):
+                unsup.append(f"cannot derive `{t}` as the part after the dot / the bare-entry sentinel")
+                bad_here = True
+                continue
+            sent = {repr(c) for c in consts}
+            extra_vals = vals - sent - {"<subtype>", "'*'"}
+            if extra_vals:
+                viol.append((kf + "|sub-target values", msite(r), f"sub-target is compared with {sorted(vals)}, expected {{None, <subtype>, '*'}}: additional sub-targets {sorted(extra_vals)} are accepted"))
+                bad_here = True
+                continue
+            if consts and consts != {None} and case != "dotted":
+                if sent <= vals:
+                    unsup.append(f"bare-entry sentinel {sorted(sent)} instead of None (not understood)")
+                    bad_here = True
+                    continue
+            if case != "dotted" and sent and sent <= vals:
+                here.add("bare")
+            if case != "bare":
+                if "<subtype>" in vals:
+                    here.add("sub")
+                if "'*'" in vals:
+                    here.add("star")
+        if not bad_here:
+            covered.update(here)
+            judged.append(r)
+
     for r in rets:
         kind = rkind(r)
-        fs = guard_facts(r)
+        fs = ret_facts[id(r)]
         unknown_f = [f for f in fs if _f_unknown(f)]
+        if r is gen_ret:
+            if any(f[0] != "harmless" for f in fs):
+                unsup.append(f"the scan `{short(r, 40)}` runs under condition(s) not understood: {'; '.join(_f_text(f) for f in fs if f[0] != 'harmless')[:100]}")
+            else:
+                judge_positive(r, [f for f in gen_facts if f[0] != "harmless"], True)
+            continue
         if kind == "pos":
-            if unknown_f:
-                unsup.append(f"`return True` under condition(s) not understood: {'; '.join(_f_text(f) for f in unknown_f)[:120]}")
-                continue
-            if not in_body(r) and any(_f_implies(f, "bare-member") for f in fs):
-                continue  # `if type in suppress_list: return True` - the bare type form, decided early
-            if any(f[0] == "dot" for f in fs):
-                unsup.append("`return True` decided separately for entries with / without a dot (case split not understood)")
-                continue
-            types = [f for f in fs if f[0] == "type" and f[2]]
-            subs = [f for f in fs if f[0] == "sub" and f[3]]
-            bad_here = False
-            if not types:
-                if reachable_without(r, "type"):
-                    viol.append((kf + "|type", msite(r), "a positive answer is given without comparing the entry's type part with the warning's type: entries of another type suppress the warning"))
-                    bad_here = True
-                else:
-                    unsup.append("`return True`: the type comparison does not dominate it (merged paths not understood)")
-                    continue
-            if not subs:
-                if reachable_without(r, "sub"):
-                    viol.append((kf + "|sub-target", msite(r), "a positive answer is given without testing the part after the dot: `type.other_subtype` suppresses every warning of the type"))
-                    bad_here = True
-                else:
-                    unsup.append("`return True`: the sub-target test does not dominate it (merged paths not understood)")
-                    continue
-            if bad_here:
-                continue
-            for _, h, _pol in types:
-                roles_h = fm.heads.get(h, set())
-                if h in fm.tails:
-                    viol.append((kf + "|roles", msite(r), f"`{h}`, compared with the warning type, holds the part AFTER the dot (or the bare-entry sentinel) on some path: type.subtype entries no longer match"))
-                    bad_here = True
-                elif h in fm.unknown or not {"split", "bare"} <= roles_h:
-                    unsup.append(f"cannot derive `{h}` as the entry's type part on both the dotted and the bare path")
-                    bad_here = True
-            for _, t, vals, _pol in subs:
-                roles_t = fm.tails.get(t, set())
-                consts = {x[1] for x in roles_t if isinstance(x, tuple)}
-                if t in fm.heads:
-                    if not any(f[1] in fm.tails for f in types):
-                        viol.append((kf + "|roles", msite(r), f"`{t}`, tested against the accepted sub-targets, holds the part BEFORE the dot on some path"))
-                    bad_here = True
-                    continue
-                if t in fm.unknown or "split" not in roles_t or not consts:
-                    unsup.append(f"cannot derive `{t}` as the part after the dot / the bare-entry sentinel")
-                    bad_here = True
-                    continue
-                missing_sent = {repr(c) for c in consts} - vals
-                if missing_sent:
-                    viol.append((kf + "|bare type", msite(r), f"a bare type entry gives `{t}` = {', '.join(sorted(missing_sent))}, which the test {sorted(vals)} does not accept: the bare type no longer suppresses"))
-                    bad_here = True
-                    continue
-                rest = vals - {repr(c) for c in consts}
-                want = {p_sub, "'*'"}
-                if rest != want:
-                    if "'*'" not in rest:
-                        why = "the `type.*` form is no longer accepted"
-                    elif p_sub not in rest:
-                        why = "the `type.subtype` form is no longer accepted"
-                    else:
-                        why = f"additional sub-targets {sorted(rest - want)} are accepted"
-                    viol.append((kf + "|sub-target values", msite(r), f"sub-target is compared with {sorted(vals)}, expected {{None, {p_sub}, '*'}}: {why}"))
-                    bad_here = True
-                elif consts != {None}:
-                    unsup.append(f"bare-entry sentinel {sorted(map(repr, consts))} instead of None (not understood)")
-                    bad_here = True
-            if not bad_here and in_body(r):
-                positives_ok += 1
+            if in_body(r):
+                judge_positive(r, fs, True)
+            else:
+                n_before = len(judged)
+                judge_positive(r, fs, False)
+                del judged[n_before:]  # an answer outside the scan establishes no form of its own
             continue
         # a negative (or not constantly positive) answer
         if not in_body(r):
@@ -949,6 +1392,16 @@ def _check_forms(isw: FunctionInfo, rep: Report, dotfree: bool) -> None:
             viol.append((k, msite(r), f"{what} is returned from inside the loop over the suppress list {cond}: the entries after it are never consulted, so a tag listed later no longer suppresses its warnings"))
         elif unknown_f or kind == "expr":
             unsup.append(f"`{short(r, 40)}` inside the loop under loop-invariant condition(s) not understood: {'; '.join(_f_text(f) for f in unknown_f)[:100]}")
+    # the positive answers together must accept the three forms
+    if judged and not unsup:
+        last = judged[-1]
+        if "bare" not in covered:
+            viol.append((kf + "|bare type", msite(last), "no positive answer accepts an entry without a dot (the sub-target a bare entry gets is not among the accepted values): the bare type no longer suppresses"))
+        if "sub" not in covered:
+            viol.append((kf + "|sub-target values|subtype form", msite(last), "no positive answer accepts `<subtype>` as the part after the dot: the `type.subtype` form is no longer accepted"))
+        if "star" not in covered:
+            viol.append((kf + "|sub-target values|star form", msite(last), "no positive answer accepts '*' as the part after the dot: the `type.*` form is no longer accepted"))
+    positives_ok = len(judged)
     for b in breaks:
         fs = guard_facts(b)
         after_neg = all(rkind(r) == "neg" for r in rets if not in_body(r))
@@ -959,7 +1412,7 @@ def _check_forms(isw: FunctionInfo, rep: Report, dotfree: bool) -> None:
         elif any(_f_unknown(f) for f in fs):
             unsup.append("`break` under a loop-invariant condition not understood")
     if not positives_ok and not viol and not unsup:
-        unsup.append("no `return True` inside the loop (rewritten in an unknown idiom)")
+        unsup.append("no positive answer inside the scan (rewritten in an unknown idiom)")
 
     if viol:
         seen = set()
@@ -973,7 +1426,7 @@ def _check_forms(isw: FunctionInfo, rep: Report, dotfree: bool) -> None:
             rep.error(R, "_is_suppressed_warning: " + m)
         return
     rep.ok(R, kf, site, "entry type part == type and part after the first dot in (None, subtype, '*'); split('.', 1) only when there is a dot")
-    rep.ok(R, kc, site, "the loop visits the whole suppress list; no negative answer and no break inside it")
+    rep.ok(R, kc, site, "the scan visits the whole suppress list; no negative answer and no break inside it")
 
 
 # -- R5 -----------------------------------------------------------------------------------
@@ -1132,10 +1585,13 @@ def r5_return_value_unused(corpus: Corpus, rep: Report, tier: str):
 
 def _judge_result(em: Emissions, fi: FunctionInfo, call: ast.Call, depth: int) -> tuple[str, str, str]:
     site = fi.module.site(call)
-    p = parent(call)
+    top: ast.AST = call
+    while (isinstance(parent(top), ast.IfExp) and parent(top).test is not top) or (isinstance(parent(top), ast.BoolOp) and parent(top).values[-1] is top):  # type: ignore[union-attr]
+        top = parent(top)  # type: ignore[assignment]  # `create_warning(...) if bad else None`, `bad and create_warning(...)`: still node-or-None
+    p = parent(top)
     if isinstance(p, ast.Expr):
         return "ok", site, "discarded"
-    if (isinstance(p, ast.Return) and p.value is call) or (fi.is_lambda and fi.node.body is call):
+    if (isinstance(p, ast.Return) and p.value is top) or (fi.is_lambda and fi.node.body is top):
         if fi.fq == em.cw_meth.fq:
             return "ok", site, "returned by the renderer wrapper, whose call sites are judged as emission sites"
         if fi.is_lambda:
@@ -1232,7 +1688,8 @@ def r6_tag_format(corpus: Corpus, rep: Report, tier: str):
     if not {"message", "subtype", "wtype"} <= set(cw.params):
         rep.error(R, "create_warning signature changed (message / subtype / wtype)")
         return
-    roles = _TagRoles(cw)
+    resolver = _resolver_of(corpus)
+    roles = _TagRoles(cw, resolver)
 
     def verdict(key: str, st: tuple[str, str], s: str, okwhat: str, errwhat: str) -> None:
         if st[0] == "ok":
@@ -1259,14 +1716,14 @@ def r6_tag_format(corpus: Corpus, rep: Report, tier: str):
     else:
         verdict(f"{cw.fq}|log record subtype", roles.classify_sub(sub_e), cw.module.site(lw[0]), "subtype= is the str, or the enum member's .value", "subtype= of the Sphinx log record not understood")
     # message nodes (docutils reporter, Sphinx system_message) carry "<message> [<type>.<subtype>]"
-    uses = [c for c in cw.local_nodes() if isinstance(c, ast.Call) and (dotted(c.func) or "").endswith(("reporter.warning", "_create_warning_node"))]
+    uses = _node_builders(cw, resolver)
     if len(uses) < 2:
         rep.error(R, f"create_warning: expected the docutils reporter call and the Sphinx node builder, found {len(uses)}")
         return
-    for c in uses:
-        k = f"{cw.fq}|node text carries the tag|{dotted(c.func)}"
+    for c, text, label in uses:
+        k = f"{cw.fq}|node text carries the tag|{label}"
         s = cw.module.site(c)
-        parts = _tag_parts(roles, c.args[0] if c.args else None)
+        parts = _tag_parts(roles, text)
         if parts is None:
             rep.error(R, f"create_warning: message text of `{short(c, 50)}` is built in an idiom not understood")
             continue
@@ -1428,6 +1885,14 @@ def mutants(corpus: Corpus):
         out.append(Mutant("c14-dot-guard-inverted", "C14.R4", w.rel, splice(w.src, dot, f"'.' not in {unparse(dot.comparators[0])}"), expect="bare type"))
     else:
         out.append(("c14-dot-guard-inverted", "no `'.' in entry` test"))
+    if dot is not None and isinstance(parent(dot), ast.If) and len(parent(dot).body) == 1 and len(parent(dot).orelse) == 1 and all(isinstance(s, ast.Assign) for s in parent(dot).body + parent(dot).orelse):
+        # the same decomposition written as a conditional expression, with the arms exchanged
+        ifs = parent(dot)
+        a_t, a_f = ifs.body[0], ifs.orelse[0]
+        if unparse(a_t.targets[0]) == unparse(a_f.targets[0]):
+            out.append(Mutant("c14-condexpr-arms-exchanged", "C14.R4", w.rel, splice(w.src, ifs, f"{unparse(a_t.targets[0])} = ({unparse(a_f.value)}) if {unparse(dot)} else ({unparse(a_t.value)})"), expect="bare type"))
+        else:
+            out.append(("c14-condexpr-arms-exchanged", "the two branches assign different targets"))
     loop = find_node(f, lambda n: isinstance(n, ast.For) and p_list is not None and unparse(n.iter) == p_list)
     ifst = None
     if loop is not None:
